@@ -1,0 +1,7 @@
+//go:build !verif
+
+package sticky
+
+// No-ops outside of verification builds (see verif_trace_on.go).
+func (*balancer) vt(byte, int, int, int32) {}
+func (*balancer) vtInit()                  {}
